@@ -69,6 +69,21 @@ func fixedScenarios(f lib.Flags) []Scenario {
 			}
 		}
 	}
+	// widen the window between close(l.ch) and l.ch = nil while writers keep sending
+	for _, r := range []string{"value", "collection"} {
+		for _, bp := range []bool{true, false} {
+			for k := 0; k < 3; k++ {
+				ws := [][]Op{sets(6), sets(6)}
+				if r == "collection" {
+					ws = [][]Op{collOps(0, 6, nil), collOps(1, 6, nil)}
+				}
+				add(Scenario{Class: "linger-in-stop", Res: r, Writers: ws, LingerAt: "listener.stop.closed", LingerUs: 400,
+					Subs: []SubSpec{{Kind: "pull", BP: bp, Consume: "drain", Cancel: "point", Point: "bus.send.beforeListener", Occ: 1 + k},
+						{Kind: "pull", BP: bp, Consume: "none", Cancel: "timer", CancelUs: 50 * k},
+						{Kind: "pull", BP: true, Consume: "drain", Cancel: "end"}}})
+			}
+		}
+	}
 	// single-item subscriptions
 	for _, bp := range []bool{true, false} {
 		for _, uo := range []bool{false, true} {
@@ -142,7 +157,7 @@ func pointScenarios(f lib.Flags, points map[string]int) []Scenario {
 // randomScenarios: 0-8 subscribers with mixed options, 0-3 writers, cancels at random instants.
 func randomScenarios(f lib.Flags) []Scenario {
 	r := lib.NewRand(f.Seed*7919 + 10)
-	n := f.N(160, 1500)
+	n := f.N(600, 4000)
 	var res []Scenario
 	for i := 0; i < n; i++ {
 		sc := Scenario{Mode: "stress", Class: "random", BoundMs: boundMs(f)}
@@ -207,7 +222,7 @@ func randomScenarios(f lib.Flags) []Scenario {
 				sp.CancelUs = r.Intn(2000)
 			case 3:
 				sp.Cancel = "point"
-				sp.Point = []string{"bus.send.afterSnapshot", "bus.send.beforeListener", "bus.listen.beforeRegister", "listener.stop.enter"}[r.Intn(4)]
+				sp.Point = []string{"bus.send.afterSnapshot", "bus.send.beforeListener", "bus.listen.beforeRegister", "listener.stop.enter", "listener.send.locked"}[r.Intn(5)]
 				sp.Occ = 1 + r.Intn(10)
 				sp.LingerUs = r.Intn(2) * 200
 			default:
@@ -217,6 +232,10 @@ func randomScenarios(f lib.Flags) []Scenario {
 				}
 			}
 			sc.Subs = append(sc.Subs, sp)
+		}
+		if r.Intn(4) == 0 {
+			sc.LingerAt = []string{"listener.stop.closed", "listener.send.locked", "listener.stop.enter", "bus.listen.beforeRegister"}[r.Intn(4)]
+			sc.LingerUs = 100 + r.Intn(300)
 		}
 		res = append(res, sc)
 	}
